@@ -263,6 +263,10 @@ def run(ctx):
     ctx.coverage["concurrent_runs"] = st.get("conc_iterations", 0)
     ctx.coverage["trace_events_validated"] = st.get("trace_lines", 0)
 
+    if not ctx.violations:
+        # reads at the pre_confirmed identifier through the RPC stack (SnapshotForBlock, pending.State over the merged diff)
+        ctx.include("G03", accept=lambda k: k.startswith("rpc2:") and not k.startswith("rpc2:getEvents"),
+                    why="pre_confirmed block / transaction / receipt / state reads through jsonrpc.Server (RpcEvents.tla)")
     ctx.assumptions += [
         "single writer (the poller goroutine) as the code documents; a second concurrent writer is out of scope",
         "state diffs are well-formed in the Starknet sense: a contract is written only by the transaction that deploys it or "
